@@ -66,8 +66,7 @@ fb!(c20_t_from_bytes_6, 6);
 fb!(c20_t_from_bytes_4, 4);
 #[cfg(feature = "thorough")]
 fb!(c20_t_from_bytes_34, 34);
-#[cfg(feature = "thorough")]
-fb!(c20_t_from_bytes_44, 44);
+fb!(c20_q_from_bytes_44, 44);
 #[cfg(feature = "thorough")]
 fb!(c20_t_from_bytes_45, 45);
 #[cfg(feature = "thorough")]
